@@ -155,6 +155,13 @@ func (rs *RecordSet) ReadFrom(r io.Reader) (int64, error) {
 		return 4, nil
 	}
 
+	if _, nested := r.(*decoder); nested && int(size) > d.remain {
+		// The record set is embedded in a message which ends before the
+		// announced size; reading that many bytes would consume the start of
+		// whatever follows the message.
+		return 4, fmt.Errorf("record set of %d bytes in a message with %d bytes left", size, d.remain)
+	}
+
 	stream := &RecordStream{
 		Records: make([]RecordReader, 0, 4),
 	}
